@@ -370,3 +370,161 @@ def _feasible(items):
         if ok:
             out.append((conds, leaf))
     return out
+
+
+# ------------------------------------------------- path conditions (structured code)
+def always_exits(stmts) -> bool:
+    """The statement list cannot fall through (ends in return / raise / continue / break on every branch)."""
+    for st in stmts:
+        if isinstance(st, (ast.Return, ast.Raise, ast.Continue, ast.Break)):
+            return True
+        if isinstance(st, ast.If) and st.orelse and always_exits(st.body) and always_exits(st.orelse):
+            return True
+    return False
+
+
+def path_condition(ctx, f, stmt: ast.AST):
+    """[(test term, polarity)] that hold when ``stmt`` executes, from the structure of the code:
+    the tests of the enclosing `if` statements, and the negated tests of earlier siblings of the
+    form `if c: <always exits>` (early returns / raises) in every enclosing statement list.
+    Test terms are values (helpers inlined), not normalised."""
+    from .model import parent
+
+    out = []
+    child, cur = stmt, parent(stmt)
+    while cur is not None:
+        for fld in ("body", "orelse", "finalbody"):
+            lst = getattr(cur, fld, None)
+            if isinstance(lst, list) and any(child is s for s in lst):
+                idx = next(i for i, s in enumerate(lst) if s is child)
+                for prev in lst[:idx]:
+                    if isinstance(prev, ast.If):
+                        if always_exits(prev.body) and not (prev.orelse and always_exits(prev.orelse)):
+                            out.append((ctx.X.value_at(f, prev.test), False))
+                        elif prev.orelse and always_exits(prev.orelse) and not always_exits(prev.body):
+                            out.append((ctx.X.value_at(f, prev.test), True))
+                if isinstance(cur, ast.If):
+                    out.append((ctx.X.value_at(f, cur.test), fld == "body"))
+        if cur is f.node or isinstance(cur, (ast.FunctionDef, ast.AsyncFunctionDef, ast.Lambda, ast.ClassDef)):
+            break
+        child, cur = cur, parent(cur)
+    return out
+
+
+def bool_nnf(t, pol: bool = True):
+    """Negation normal form of a boolean term: ('or', items) | ('and', items) | ('lit', atom, polarity).
+    Conditional expressions with constant branches (helpers with early `return False/True`)
+    and bool(...) wrappers are boolean connectives."""
+    from .pattern import norm
+
+    t = norm(t)
+    k = t[0]
+    if k == "unary" and t[1] in ("not",):
+        return bool_nnf(t[2], not pol)
+    if k == "call" and t[1] == ("builtin", "bool") and len(t[2]) == 1:
+        return bool_nnf(t[2][0], pol)
+    if k == "bool":
+        items = [bool_nnf(x, pol) for x in t[2]]
+        op = t[1] if pol else ("or" if t[1] == "and" else "and")
+        return _flat_bool(op, items)
+    if k == "ifexp":
+        c, a, b = t[1], t[2], t[3]
+        T, F = ("const", True), ("const", False)
+        if a == F:
+            return bool_nnf(("bool", "and", (("unary", "not", c), b)), pol)
+        if a == T:
+            return bool_nnf(("bool", "or", (c, b)), pol)
+        if b == F:
+            return bool_nnf(("bool", "and", (c, a)), pol)
+        if b == T:
+            return bool_nnf(("bool", "or", (("unary", "not", c), a)), pol)
+        return bool_nnf(("bool", "or", (("bool", "and", (c, a)), ("bool", "and", (("unary", "not", c), b)))), pol)
+    if k == "const" and isinstance(t[1], bool):
+        return ("lit", ("const", True), t[1] == pol)
+    a, p = norm_cond(t)
+    return ("lit", a, p == pol)
+
+
+def _flat_bool(op, items):
+    out = []
+    for it in items:
+        if it[0] == op:
+            out += list(it[1])
+        else:
+            out.append(it)
+    # constants
+    keep = []
+    for it in out:
+        if it[0] == "lit" and it[1] == ("const", True):
+            val = it[2]
+            if (op == "or" and val) or (op == "and" and not val):
+                return ("lit", ("const", True), val)
+            continue
+        keep.append(it)
+    if not keep:
+        return ("lit", ("const", True), op == "and")
+    return keep[0] if len(keep) == 1 else (op, tuple(keep))
+
+
+def nnf_literals(n):
+    if n[0] == "lit":
+        return [(n[1], n[2])]
+    return [x for it in n[1] for x in nnf_literals(it)]
+
+
+# ------------------------------------------------------------ linear integer forms
+def linear_form(t):
+    """(coefficients {atom term: number}, constant) of a term built with + - unary minus and
+    constant factors; any other subterm is an atom."""
+    from .pattern import norm
+
+    t = norm(t)
+    coeffs: dict = {}
+    const = [0]
+
+    def add_(x, k):
+        if x[0] == "const" and isinstance(x[1], (int, float)) and not isinstance(x[1], bool):
+            const[0] += k * x[1]
+        elif x[0] == "binop" and x[1] == "+":
+            add_(x[2], k)
+            add_(x[3], k)
+        elif x[0] == "unary" and x[1] == "-":
+            add_(x[2], -k)
+        elif x[0] == "binop" and x[1] == "*" and x[2][0] == "const" and isinstance(x[2][1], (int, float)):
+            add_(x[3], k * x[2][1])
+        elif x[0] == "binop" and x[1] == "*" and x[3][0] == "const" and isinstance(x[3][1], (int, float)):
+            add_(x[2], k * x[3][1])
+        elif x[0] == "call" and x[1][0] == "builtin" and x[1][1] in ("int", "float") and len(x[2]) == 1:
+            add_(x[2][0], k)
+        else:
+            coeffs[x] = coeffs.get(x, 0) + k
+
+    add_(t, 1)
+    return {a: c for a, c in coeffs.items() if c != 0}, const[0]
+
+
+def linear_cmp(atom, pol: bool = True, integers: bool = True):
+    """`L op R` (with polarity) as (coeffs, const, op) meaning  sum(coeffs) + const  op  0  with op in
+    {'>=', '==', '!='}; strict comparisons between integers are rewritten (x > 0 == x - 1 >= 0).
+    None when the atom is not an arithmetic comparison."""
+    if atom[0] != "cmp" or atom[1] not in ("<", "<=", ">", ">=", "==", "!="):
+        return None
+    op = atom[1]
+    if not pol:
+        op = {"<": ">=", "<=": ">", ">": "<=", ">=": "<", "==": "!=", "!=": "=="}[op]
+    lc, lk = linear_form(atom[2])
+    rc, rk = linear_form(atom[3])
+    coeffs = dict(lc)
+    for a, c in rc.items():
+        coeffs[a] = coeffs.get(a, 0) - c
+    const = lk - rk
+    if op in ("<", "<="):  # L < R  ==  R - L > 0
+        coeffs = {a: -c for a, c in coeffs.items()}
+        const = -const
+        op = ">" if op == "<" else ">="
+    if op == ">":
+        if not integers:
+            return None
+        const -= 1
+        op = ">="
+    return {a: c for a, c in coeffs.items() if c != 0}, const, op
